@@ -362,6 +362,155 @@ def _reach_clean_avoiding(fn, target, clean, sname, field, nonnull):
     return False
 
 
+def copy_tag_rule(chk, prog):
+    """K9-copytag: a function that sets up a fresh reader and takes the tag of a cache over from another reader (a block
+    copy that covers the tag member, or a store of the other one's tag) also takes the payload over, on every path that
+    hands the new object out -- or resets the tag.  A copy that names a block it does not hold answers a later seek into
+    that block from whatever its buffer happens to contain."""
+    from .c13 import _e7_walk
+    n = 0
+
+    class _S:
+        pass
+    for (sname, tag, payload) in ARRAY_CACHES:
+        st = prog.struct(sname)
+        if st is None:
+            continue
+        offs = {e.get("n"): (e["off"], e["sz"]) for e in st["elems"]}
+        if tag not in offs or payload[0] not in offs:
+            chk.broke("K9-copytag: members of %s not found" % sname)
+            continue
+        t_off, t_sz = offs[tag]
+        d_off, d_sz = offs[payload[0]]
+        for f in prog.functions():
+            if f.decl:
+                continue
+            f.build()
+            ev = {}
+            for i in f.insts():
+                if i.op == "call" and norm_callee(i.callee) in ("memcpy", "memmove") and len(i.ops) >= 3:
+                    base, off, exact = resolve_ptr(prog, i.ops[0], f.unit)
+                    if not exact or not base_is_fresh(prog, i.ops[0], f):
+                        continue
+                    pt = _ptr_struct(prog, f, i.ops[0])
+                    if pt is None or not (pt == sname or pt.startswith(sname + ".")):
+                        continue
+                    ln = i.ops[2]
+                    hi = off + ln.uval if (ln.is_const and ln.is_int) else None
+                    kinds = set()
+                    if off <= t_off and hi is not None and hi >= t_off + t_sz:
+                        kinds.add("tag")
+                    if off <= d_off and (hi is None or hi > d_off):
+                        if off == d_off or (hi is not None and hi >= d_off + 1):
+                            kinds.add("payload")
+                    if kinds:
+                        ev[i] = kinds
+                elif i.op == "store" and field_of_ptr(i.ops[1], sname) == tag and base_is_fresh(prog, i.ops[1], f):
+                    ev[i] = {"reset"} if i.ops[0].is_const else {"tag"}
+            if not any("tag" in k for k in ev.values()):
+                continue
+            n += 1
+            chk.analysed(f)
+            s0 = _S()
+            s0.bb = f.blocks[0]
+            bad = None
+            for (v, r, path) in _e7_walk(prog, f, s0, None, [], set()):
+                w = strip_casts(v)
+                if w.is_const and w.is_null:
+                    continue
+                has_tag = has_payload = False
+                for b in path:
+                    for i in b.insts:
+                        k = ev.get(i)
+                        if not k:
+                            continue
+                        if "tag" in k:
+                            has_tag = True
+                        if "payload" in k:
+                            has_payload = True
+                        if "reset" in k:
+                            has_tag = False
+                if has_tag and not has_payload:
+                    bad = r
+                    break
+            inst = "%s:%s" % (f.name, tag)
+            if bad is None:
+                chk.ok("K9-copytag", inst, f, "wherever the tag is taken over, the payload is taken over too (or the tag is reset)")
+            else:
+                chk.violation("K9-copytag", inst, bad, "a path hands out a new %s whose '%s' names the other reader's block while '%s' was "
+                              "not copied: a seek into that block is answered from an uninitialised buffer"
+                              % (sname.replace("struct.", ""), tag, payload[0]))
+    return n
+
+
+def _ptr_struct(prog, f, p):
+    """struct S if the base of pointer p is an S* (looking through the casts memcpy needs)"""
+    b = resolve_ptr(prog, p, f.unit)[0]
+    seen = 0
+    x = b
+    while seen < 4:
+        ty = getattr(x, "ty", "") or ""
+        if ty.startswith("%struct.") and ty.endswith("*") and not ty.endswith("**"):
+            return ty[1:-1]
+        if x.is_inst and x.op == "bitcast":
+            x = x.ops[0]
+            seen += 1
+            continue
+        # malloc result cast to the struct somewhere
+        for u in f.uses.get(x, []) if x.is_inst else []:
+            if u.op == "bitcast" and u.ty.startswith("%struct.") and u.ty.endswith("*"):
+                return u.ty[1:-1]
+        break
+    return None
+
+
+def same_bound_rule(chk, prog, units_prefix=("lib/sqfs/src/",)):
+    """K12-samebound (a contradiction rule): a reader that compares one of its arguments with a member of the reader more
+    than once in a function -- the hit path and the miss path of a cache, typically -- uses the same relation each
+    time.  `offset >= used` on one path and `offset > used` on the other means the answer to a query depends on what
+    was asked before."""
+    n = 0
+    strict = {"ult": ("lt", False), "ule": ("le", False), "ugt": ("gt", False), "uge": ("ge", False),
+              "slt": ("lt", True), "sle": ("le", True), "sgt": ("gt", True), "sge": ("ge", True)}
+    flip = {"lt": "gt", "le": "ge", "gt": "lt", "ge": "le"}
+    for f in prog.functions():
+        if f.decl or not f.unit.src.startswith(units_prefix) or "/test/" in f.unit.src:
+            continue
+        groups = {}
+        for i in f.build().insts():
+            if i.op != "icmp" or i.pred not in strict:
+                continue
+            rel = strict[i.pred][0]
+            a, b = i.ops
+            for (x, y, r) in ((a, b, rel), (b, a, flip[rel])):
+                ux = x
+                while ux.is_inst and ux.op in ("zext", "sext", "trunc"):
+                    ux = ux.ops[0]
+                uy = y
+                while uy.is_inst and uy.op in ("zext", "sext", "trunc"):
+                    uy = uy.ops[0]
+                if ux.is_arg and uy.is_inst and uy.op == "load":
+                    q = strip_casts(uy.ops[0])
+                    if q.is_inst and q.op == "getelementptr" and q.field() and strip_casts(resolve_ptr(prog, q, f.unit)[0]).is_arg:
+                        groups.setdefault((ux.idx, q.field()), []).append((r, i))
+        for (k, fld), lst in sorted(groups.items(), key=lambda kv: (kv[0][0], kv[0][1])):
+            if len(lst) < 2:
+                continue
+            n += 1
+            chk.analysed(f)
+            inst = "%s:arg%d~%s" % (f.name, k, fld[1])
+            # rejecting `x >= F` and accepting `x < F` are one relation; `x > F` / `x <= F` the other
+            kinds = {("strict-inside" if r in ("ge", "lt") else "inclusive") for (r, _i) in lst}
+            if len(kinds) == 1:
+                chk.ok("K12-samebound", inst, lst[0][1], "argument %d is compared with '%s' %d times, every time with the same relation" % (k, fld[1], len(lst)))
+            else:
+                odd = [i for (r, i) in lst if r in ("gt", "le")] or [lst[-1][1]]
+                chk.violation("K12-samebound", inst, odd[0], "argument %d is compared with '%s' with '>=' on one path and with '>' on another: "
+                              "whether a position right at '%s' is accepted depends on which path a query takes (what was cached by "
+                              "the query before), not on the image and the query" % (k, fld[1], fld[1]))
+    return n
+
+
 def run_pointer_cache(chk, prog, sname, tag, ptr):
     n = 0
     for fn in prog.functions():
@@ -908,6 +1057,9 @@ def run(chk):
     chk.floor("K9-fresh", 2)
     unique_key_rule(chk, prog)
     chk.floor("K9-key", 1)
+    copy_tag_rule(chk, prog)
+    chk.floor("K9-copytag", 1)
+    same_bound_rule(chk, prog)       # instances come and go with the code's structure: the controls keep the rule honest
     chk.floor("K9-array", 2)
     chk.floor("K9-ptr", 2)
     chk.floor("K9-out", 2)
@@ -928,5 +1080,10 @@ def controls(chk):
     chk.control("K9-array", ("K9-array", "ctl_seek_stale") in got, "payload overwritten, error return, tag not invalidated")
     chk.control("K9-out", ("K9-out", "ctl_precache_bad") in got, "out-parameter keeps a block on failure")
     chk.control("K13-hit", ("K13-hit", "ctl_precache_nohit") in got, "hit path without tag test")
+    sub2 = Check("C10-control", chk.tier)
+    same_bound_rule(sub2, prog, units_prefix=("c10_controls.c",))
+    got2 = {(o["rule"], o["function"]) for o in sub2.obl if o["verdict"] == "VIOLATED"}
+    chk.control("K12-samebound", ("K12-samebound", "ctl_seek_two_bounds") in got2, "'>' on the hit path, '>=' on the miss path")
+    chk.control("K12-samebound/silent", ("K12-samebound", "ctl_seek_one_bound") not in got2, "the same relation spelled two ways")
     chk.control("silent-on-good", not any(fn in ("ctl_seek_good", "ctl_precache_good") for (_r, fn) in got),
                 "correct functions must not be reported")
